@@ -243,6 +243,73 @@ def configs(tier, avx):
     return cfgs
 
 
+class Callbacks:
+    """user callbacks that change particles or add forces: deferred synchronisation must give the result of safe mode (the
+    library re-reads the particles after a modification callback; position-dependent extra forces commute with merging kicks)"""
+    def __init__(self, rebound):
+        self.rebound = rebound
+
+    def run1(self, integ, o, family, nsteps, boost, dtfac=1.0):
+        rebound = self.rebound
+        sim, P = lattice.make_sim(rebound, {"integ": integ, "o": o, "sys": "S3", "tp": 0, "dtsign": 1, "dtfac": dtfac})
+        if boost:
+            for p in sim.particles:
+                p.vx += 0.3
+                p.x += 0.7
+        keep = []
+        if family in ("post", "pre"):
+            def cb(simp):
+                s_ = simp.contents
+                p = s_._particles[1]
+                p.vx *= (1 - 1e-3)
+                p.vy *= (1 - 1e-3)
+                s_._particles[2].m *= (1 + 1e-4)
+            keep.append(cb)
+            if family == "post":
+                sim.post_timestep_modifications = cb
+            else:
+                sim.pre_timestep_modifications = cb
+        else:
+            def frc(simp):
+                s_ = simp.contents
+                for i in range(s_.N):
+                    p = s_._particles[i]
+                    p.ax += -1e-3 * p.x
+                    p.ay += -2e-3 * p.y
+            keep.append(frc)
+            sim.additional_forces = frc
+        sim.steps(nsteps)
+        sim.synchronize()
+        return pvec(sim)
+
+    def __call__(self, task):
+        integ, o, family, boost = task
+        rb.quiet()
+        o_safe = dict(o, safe_mode=1)
+        o_safe.pop("keep_unsynchronized", None)
+        V = []
+        for nsteps in (1, 7, 40):
+            a = self.run1(integ, o_safe, family, nsteps, boost)
+            b = self.run1(integ, dict(o, safe_mode=0), family, nsteps, boost)
+            sc = max(abs(x) for p in a for x in p)
+            d = maxdiff(a, b)
+            bound = 1e-11 * sc * nsteps
+            extra = ""
+            if integ == "eos":
+                # the merged drift of EOS is itself approximate: allow the scheme's own truncation error over these steps
+                # (n steps against 2n steps of half the size, both in safe mode), as for the plain sequences above
+                trunc = maxdiff(a, self.run1(integ, o_safe, family, 2 * nsteps, boost, 0.5))
+                bound += 20 * trunc
+                extra = "; the scheme's own truncation error over these steps is %.3g" % trunc
+            if not d <= bound:
+                V.append(("callback:%s:unsafe-vs-safe:%s%s" % (family, integ, ":boosted" if boost else ""),
+                          "%s%s with a %s callback: safe_mode=0 differs from safe mode by %.3g (relative %.3g) after %d steps%s%s" % (
+                              integ, o, {"post": "post_timestep_modifications", "pre": "pre_timestep_modifications", "forces": "position-dependent additional_forces"}[family], d, d / sc, nsteps,
+                              " (system displaced and boosted)" if boost else "", extra)))
+                break
+        return V
+
+
 def run(ctx):
     rebound = ctx.use("rel")
     cfgs = configs(ctx.tier, False)
@@ -272,6 +339,20 @@ def run(ctx):
         maxr2 = max(maxr2, obs["max_round_corr2"])
         for sig, what in V:
             ctx.violation(sig, what, {"cfg": cfg, "seqs": sq})
+    # user callbacks
+    cbt = []
+    for integ, o in [("whfast", {"coordinates": c}) for c in ("jacobi", "democraticheliocentric", "whds", "barycentric")] + [("whfast", {"corrector": 11}), ("whfast", {"kernel": "lazy", "corrector": 17}),
+                     ("saba", {"type": "10,6,4"}), ("saba", {"type": "cl4"}), ("saba", {"type": "2"}), ("mercurius", {}), ("eos", {"phi0": "lf4", "phi1": "lf", "n": 2}), ("eos", {"phi0": "pmlf4", "phi1": "lf4", "n": 2})]:
+        for family in ("post", "pre", "forces"):
+            for boost in (False, True):
+                cbt.append((integ, o, family, boost))
+    cres = pool.run_tasks(Callbacks(rebound), cbt, timeout=300, chunk=1)
+    for t, r in zip(cbt, cres):
+        if r[0] != "ok":
+            ctx.violation("callback-%s:%s" % (r[0], t[0]), "%s in callback case %s: %s" % (r[0], t, str(r[1])[-400:]), {"callback": [t[0], t[1], t[2], t[3]]})
+            continue
+        for sig, what in r[1]:
+            ctx.violation(sig, what, {"callback": [t[0], t[1], t[2], t[3]]})
     # WHFast512 exists only in the AVX512 build: its part runs in a process of its own (mc/w512.py)
     from .. import w512
     n_w512 = w512.run(ctx, "C09")
@@ -279,7 +360,7 @@ def run(ctx):
         "whfast512_cases": n_w512,
         "states": runs, "transitions": runs * 3, "traces_validated_against_impl": runs,
         "samples": [{"cfg": cfgs[0], "sequences": seqs[:12]}, {"cfg": cfgs[-1], "sequences": seqs[-5:]}],
-        "configs": len(cfgs), "sequences_per_config_and_mode": len(seqs), "max_steps": 4, "max_interposed": 2 if ctx.tier == "quick" else 3,
+        "callback_cases": len(cbt), "configs": len(cfgs), "sequences_per_config_and_mode": len(seqs), "max_steps": 4, "max_interposed": 2 if ctx.tier == "quick" else 3,
         "observed_max_relative_rounding_difference": maxr, "rounding_tolerance": ROUND_TOL,
         "observed_max_relative_difference_with_corrector2": maxr2, "corrector2_tolerance": CORR2_TOL,
         "exhaustive": True,
